@@ -99,345 +99,351 @@ def run(ctx: Context) -> None:
                   construct=f"{f.short}: {len(rs)} raise statement(s): {[norm_text(r)[:60] for r in rs]}")
 
     # ------------------------------------------------------------------ utils.move_dimensions_to_end
-    mv = ctx.func(f"{UTILS}.move_dimensions_to_end")
-    flow = ctx.flow(mv)
-    da, dims_p = mv.params[0], mv.params[1]
-    # new_order
-    transposes = [c for c in method_calls(mv, 'transpose')]
-    ctx.need('R03.3', len(transposes) == 1, f"expected one transpose call", mv)
-    tr = transposes[0]
-    order = None
-    if len(tr.args) == 1 and isinstance(tr.args[0], ast.Starred):
-        order = flow.resolve(tr.args[0].value)
-    elif len(tr.args) == 1:
-        order = flow.resolve(tr.args[0])
-    parts = _flatten_add(order) if order is not None else []
-    ok_first = False
-    ok_last = False
-    if len(parts) == 2:
-        first, last = flow.resolve(parts[0]), flow.resolve(parts[1])
-        if isinstance(first, (ast.ListComp, ast.GeneratorExp)) and len(first.generators) == 1:
-            g = first.generators[0]
-            ok_iter = flow.canon(g.iter) == ('attr', ('param', da), 'dims')
-            ok_elt = isinstance(first.elt, ast.Name) and isinstance(g.target, ast.Name) and first.elt.id == g.target.id
-            ok_if = (len(g.ifs) == 1 and isinstance(g.ifs[0], ast.Compare) and len(g.ifs[0].ops) == 1
-                     and isinstance(g.ifs[0].ops[0], ast.NotIn) and isinstance(g.ifs[0].left, ast.Name)
-                     and g.ifs[0].left.id == g.target.id
-                     and flow.canon(g.ifs[0].comparators[0]) == ('param', dims_p))
-            ok_first = ok_iter and ok_elt and ok_if
-        layers, core = peel_sequence(flow, last)
-        ok_last = all(l[0] == 'conv' for l in layers) and flow.canon(core) == ('param', dims_p)
-    ctx.check('R03.3', ok_first, "kept dimensions are data_array.dims filtered by `not in dimensions`, in order", mv, tr,
-              construct=f"new order, first part: {norm_text(parts[0]) if parts else '?'}")
-    ctx.check('R03.3', ok_last, "the requested dimensions are appended exactly as given", mv, tr,
-              construct=f"new order, last part: {norm_text(parts[1]) if len(parts) > 1 else '?'}")
-    ctx.check('R03.1', flow.canon(tr.func.value) == ('param', da) and not tr.keywords,
-              "the transpose is applied to the input array with the new order", mv, tr)
-    # all returns are moves of the input
-    for r in mv.returns():
-        methods, b = _values_chain(flow, r.value)
-        ok = flow.canon(b) == ('param', da) and len(methods) >= 1
-        ctx.check('R03.2', ok, "move_dimensions_to_end returns the input only transposed or copied", mv, r)
-    # refusal
-    raises = [n for n in walk_no_nested(mv.node) if isinstance(n, ast.Raise)]
-    ok_raise = False
-    for rs in raises:
-        for st, inb in enclosing_ifs(mv, rs):
-            t = st.test
-            txt = norm_text(t)
-            if inb and isinstance(t, ast.UnaryOp) and isinstance(t.op, ast.Not) and isinstance(t.operand, ast.Call) \
-                    and isinstance(t.operand.func, ast.Attribute) and t.operand.func.attr == 'issuperset' \
-                    and t.operand.args and flow.canon(t.operand.args[0]) == ('param', dims_p):
-                recv = flow.resolve(t.operand.func.value)
-                if isinstance(recv, ast.Call) and dotted(recv.func) == 'set' and recv.args \
-                        and flow.canon(recv.args[0]) == ('attr', ('param', da), 'dims'):
-                    ok_raise = True
-    cfg = ctx.cfg(mv)
-    dominated = ok_raise and all(
-        any(cfg.dominates(st, cfg.enclosing(tr) or tr) for st in walk_no_nested(mv.node)
-            if isinstance(st, ast.If) and any(isinstance(x, ast.Raise) for x in st.body))
-        for _ in [0])
-    ctx.check('R03.4', ok_raise and dominated, "raises unless set(data_array.dims) is a superset of the requested dimensions, before transposing", mv,
-              raises[0] if raises else mv.node, construct='missing-dimension guard: ' + ('present' if ok_raise else 'absent'))
+    with ctx.section('utils.move_dimensions_to_end'):
+        mv = ctx.func(f"{UTILS}.move_dimensions_to_end")
+        flow = ctx.flow(mv)
+        da, dims_p = mv.params[0], mv.params[1]
+        # new_order
+        transposes = [c for c in method_calls(mv, 'transpose')]
+        ctx.need('R03.3', len(transposes) == 1, f"expected one transpose call", mv)
+        tr = transposes[0]
+        order = None
+        if len(tr.args) == 1 and isinstance(tr.args[0], ast.Starred):
+            order = flow.resolve(tr.args[0].value)
+        elif len(tr.args) == 1:
+            order = flow.resolve(tr.args[0])
+        parts = _flatten_add(order) if order is not None else []
+        ok_first = False
+        ok_last = False
+        if len(parts) == 2:
+            first, last = flow.resolve(parts[0]), flow.resolve(parts[1])
+            if isinstance(first, (ast.ListComp, ast.GeneratorExp)) and len(first.generators) == 1:
+                g = first.generators[0]
+                ok_iter = flow.canon(g.iter) == ('attr', ('param', da), 'dims')
+                ok_elt = isinstance(first.elt, ast.Name) and isinstance(g.target, ast.Name) and first.elt.id == g.target.id
+                ok_if = (len(g.ifs) == 1 and isinstance(g.ifs[0], ast.Compare) and len(g.ifs[0].ops) == 1
+                         and isinstance(g.ifs[0].ops[0], ast.NotIn) and isinstance(g.ifs[0].left, ast.Name)
+                         and g.ifs[0].left.id == g.target.id
+                         and flow.canon(g.ifs[0].comparators[0]) == ('param', dims_p))
+                ok_first = ok_iter and ok_elt and ok_if
+            layers, core = peel_sequence(flow, last)
+            ok_last = all(l[0] == 'conv' for l in layers) and flow.canon(core) == ('param', dims_p)
+        ctx.check('R03.3', ok_first, "kept dimensions are data_array.dims filtered by `not in dimensions`, in order", mv, tr,
+                  construct=f"new order, first part: {norm_text(parts[0]) if parts else '?'}")
+        ctx.check('R03.3', ok_last, "the requested dimensions are appended exactly as given", mv, tr,
+                  construct=f"new order, last part: {norm_text(parts[1]) if len(parts) > 1 else '?'}")
+        ctx.check('R03.1', flow.canon(tr.func.value) == ('param', da) and not tr.keywords,
+                  "the transpose is applied to the input array with the new order", mv, tr)
+        # all returns are moves of the input
+        for r in mv.returns():
+            methods, b = _values_chain(flow, r.value)
+            ok = flow.canon(b) == ('param', da) and len(methods) >= 1
+            ctx.check('R03.2', ok, "move_dimensions_to_end returns the input only transposed or copied", mv, r)
+        # refusal
+        raises = [n for n in walk_no_nested(mv.node) if isinstance(n, ast.Raise)]
+        ok_raise = False
+        for rs in raises:
+            for st, inb in enclosing_ifs(mv, rs):
+                t = st.test
+                txt = norm_text(t)
+                if inb and isinstance(t, ast.UnaryOp) and isinstance(t.op, ast.Not) and isinstance(t.operand, ast.Call) \
+                        and isinstance(t.operand.func, ast.Attribute) and t.operand.func.attr == 'issuperset' \
+                        and t.operand.args and flow.canon(t.operand.args[0]) == ('param', dims_p):
+                    recv = flow.resolve(t.operand.func.value)
+                    if isinstance(recv, ast.Call) and dotted(recv.func) == 'set' and recv.args \
+                            and flow.canon(recv.args[0]) == ('attr', ('param', da), 'dims'):
+                        ok_raise = True
+        cfg = ctx.cfg(mv)
+        dominated = ok_raise and all(
+            any(cfg.dominates(st, cfg.enclosing(tr) or tr) for st in walk_no_nested(mv.node)
+                if isinstance(st, ast.If) and any(isinstance(x, ast.Raise) for x in st.body))
+            for _ in [0])
+        ctx.check('R03.4', ok_raise and dominated, "raises unless set(data_array.dims) is a superset of the requested dimensions, before transposing", mv,
+                  raises[0] if raises else mv.node, construct='missing-dimension guard: ' + ('present' if ok_raise else 'absent'))
 
     # ------------------------------------------------------------------ utils.ravel_dimensions
-    rv = ctx.func(f"{UTILS}.ravel_dimensions")
-    flow = ctx.flow(rv)
-    da, dims_p = rv.params[0], rv.params[1]
-    moves = [c for c in calls_in(rv) if callee(ctx, rv, c) == f"{UTILS}.move_dimensions_to_end"]
-    ctx.need('R03.1', len(moves) == 1, f"expected one move_dimensions_to_end call", rv)
-    mvcall = moves[0]
-    ok = (len(mvcall.args) == 2 and flow.canon(mvcall.args[0]) == ('param', da)
-          and flow.canon(mvcall.args[1]) == ('param', dims_p))
-    ctx.check('R03.1', ok, "the grid dimensions handed to move_dimensions_to_end are the caller's sequence, unpermuted", rv, mvcall)
-    items = _returned_dataarray(ctx, rv)
-    ctx.need('R03.2', len(items) == 1, f"expected one returned DataArray", rv)
-    r, item = items[0]
-    data = arg_or_kw(item, 0, 'data')
-    dims = arg_or_kw(item, 2, 'dims')
-    ctx.need('R03.2', data is not None and dims is not None, f"DataArray without data/dims", rv)
-    methods, b = _values_chain(flow, data)
-    moved_canon = flow.canon(mvcall)
-    ok_base = isinstance(b, ast.Attribute) and b.attr in ('values', 'data') and flow.canon(b.value) == moved_canon
-    ok_methods = len(methods) == 1 and methods[0].func.attr == 'reshape'
-    ctx.check('R03.2', ok_base and ok_methods, "the output data is <moved array>.values.reshape(...) and nothing else", rv, item,
-              construct=f"data={norm_text(flow.resolve(data))}")
-    len_dims = flow.canon(ast.parse(f"len({dims_p})", mode='eval').body)
-    len_dims = ('call', ('global', 'len'), (('param', dims_p),), ())
+    with ctx.section('utils.ravel_dimensions'):
+        rv = ctx.func(f"{UTILS}.ravel_dimensions")
+        flow = ctx.flow(rv)
+        da, dims_p = rv.params[0], rv.params[1]
+        moves = [c for c in calls_in(rv) if callee(ctx, rv, c) == f"{UTILS}.move_dimensions_to_end"]
+        ctx.need('R03.1', len(moves) == 1, f"expected one move_dimensions_to_end call", rv)
+        mvcall = moves[0]
+        ok = (len(mvcall.args) == 2 and flow.canon(mvcall.args[0]) == ('param', da)
+              and flow.canon(mvcall.args[1]) == ('param', dims_p))
+        ctx.check('R03.1', ok, "the grid dimensions handed to move_dimensions_to_end are the caller's sequence, unpermuted", rv, mvcall)
+        items = _returned_dataarray(ctx, rv)
+        ctx.need('R03.2', len(items) == 1, f"expected one returned DataArray", rv)
+        r, item = items[0]
+        data = arg_or_kw(item, 0, 'data')
+        dims = arg_or_kw(item, 2, 'dims')
+        ctx.need('R03.2', data is not None and dims is not None, f"DataArray without data/dims", rv)
+        methods, b = _values_chain(flow, data)
+        moved_canon = flow.canon(mvcall)
+        ok_base = isinstance(b, ast.Attribute) and b.attr in ('values', 'data') and flow.canon(b.value) == moved_canon
+        ok_methods = len(methods) == 1 and methods[0].func.attr == 'reshape'
+        ctx.check('R03.2', ok_base and ok_methods, "the output data is <moved array>.values.reshape(...) and nothing else", rv, item,
+                  construct=f"data={norm_text(flow.resolve(data))}")
+        len_dims = flow.canon(ast.parse(f"len({dims_p})", mode='eval').body)
+        len_dims = ('call', ('global', 'len'), (('param', dims_p),), ())
 
-    def is_neg_len(e: Optional[ast.AST]) -> bool:
-        """e == -len(dimensions), through any local aliases."""
-        if e is None:
-            return False
-        form = linear(flow, e)
-        return form is not None and form == symbol(len_dims).scale(-1)
+        def is_neg_len(e: Optional[ast.AST]) -> bool:
+            """e == -len(dimensions), through any local aliases."""
+            if e is None:
+                return False
+            form = linear(flow, e)
+            return form is not None and form == symbol(len_dims).scale(-1)
 
-    if ok_methods:
-        rs = methods[0]
-        order_kw = kwarg(rs, 'order')
-        ctx.check('R03.1', (order_kw is None or const_value(order_kw, None) == 'C') and len(rs.args) == 1,
-                  "reshape uses C order", rv, rs, construct=f"reshape order={norm_text(order_kw) if order_kw is not None else 'default'}")
-        shape = flow.resolve(rs.args[0]) if rs.args else None
-        parts = _flatten_add(shape) if shape is not None else []
-        ok_shape = False
-        if len(parts) == 2:
-            head, tail = flow.resolve(parts[0]), flow.resolve(parts[1])
-            ok_head = (isinstance(head, ast.Subscript) and isinstance(head.slice, ast.Slice)
-                       and head.slice.lower is None and head.slice.step is None and is_neg_len(head.slice.upper)
-                       and isinstance(head.value, ast.Attribute) and head.value.attr == 'shape'
+        if ok_methods:
+            rs = methods[0]
+            order_kw = kwarg(rs, 'order')
+            ctx.check('R03.1', (order_kw is None or const_value(order_kw, None) == 'C') and len(rs.args) == 1,
+                      "reshape uses C order", rv, rs, construct=f"reshape order={norm_text(order_kw) if order_kw is not None else 'default'}")
+            shape = flow.resolve(rs.args[0]) if rs.args else None
+            parts = _flatten_add(shape) if shape is not None else []
+            ok_shape = False
+            if len(parts) == 2:
+                head, tail = flow.resolve(parts[0]), flow.resolve(parts[1])
+                ok_head = (isinstance(head, ast.Subscript) and isinstance(head.slice, ast.Slice)
+                           and head.slice.lower is None and head.slice.step is None and is_neg_len(head.slice.upper)
+                           and isinstance(head.value, ast.Attribute) and head.value.attr == 'shape'
+                           and flow.canon(head.value.value) == moved_canon)
+                ok_tail = isinstance(tail, ast.Tuple) and len(tail.elts) == 1 and const_value(tail.elts[0], None) == -1
+                ok_shape = ok_head and ok_tail
+            ctx.check('R03.1', ok_shape, "new shape = moved.shape[:-len(dimensions)] + (-1,): exactly the moved dimensions are merged", rv, rs,
+                      construct=f"new shape = {norm_text(shape) if shape is not None else '?'}")
+        dparts = _flatten_add(flow.resolve(dims))
+        ok_dims = False
+        if len(dparts) == 2:
+            head, tail = flow.resolve(dparts[0]), flow.resolve(dparts[1])
+            ok_head = (isinstance(head, ast.Subscript) and isinstance(head.slice, ast.Slice) and head.slice.lower is None
+                       and is_neg_len(head.slice.upper) and isinstance(head.value, ast.Attribute) and head.value.attr == 'dims'
                        and flow.canon(head.value.value) == moved_canon)
-            ok_tail = isinstance(tail, ast.Tuple) and len(tail.elts) == 1 and const_value(tail.elts[0], None) == -1
-            ok_shape = ok_head and ok_tail
-        ctx.check('R03.1', ok_shape, "new shape = moved.shape[:-len(dimensions)] + (-1,): exactly the moved dimensions are merged", rv, rs,
-                  construct=f"new shape = {norm_text(shape) if shape is not None else '?'}")
-    dparts = _flatten_add(flow.resolve(dims))
-    ok_dims = False
-    if len(dparts) == 2:
-        head, tail = flow.resolve(dparts[0]), flow.resolve(dparts[1])
-        ok_head = (isinstance(head, ast.Subscript) and isinstance(head.slice, ast.Slice) and head.slice.lower is None
-                   and is_neg_len(head.slice.upper) and isinstance(head.value, ast.Attribute) and head.value.attr == 'dims'
-                   and flow.canon(head.value.value) == moved_canon)
-        ok_tail = isinstance(tail, ast.Tuple) and len(tail.elts) == 1
-        ok_dims = ok_head and ok_tail
-        lin_expr = tail.elts[0] if ok_tail else None
-    ctx.check('R03.1', ok_dims, "new dims = moved.dims[:-len(dimensions)] + (linear dimension,)", rv, item,
-              construct=f"dims={norm_text(flow.resolve(dims))}")
-    # the linear dimension: the caller's name or a fresh one
-    if ok_dims and lin_expr is not None:
-        c = flow.canon(lin_expr)
-        lp = rv.params[2] if len(rv.params) > 2 else 'linear_dimension'
-        ok_lin = c == ('param', lp) or (c[0] == 'phi' and ('param', lp) in c)
-        fresh = [x for x in calls_in(rv) if callee(ctx, rv, x) == f"{UTILS}.find_unused_dimension"]
-        guarded = all(any(inb and isinstance(st.test, ast.Compare) and isinstance(st.test.ops[0], ast.Is)
-                          and is_none(st.test.comparators[0]) for st, inb in enclosing_ifs(rv, x)) for x in fresh)
-        ctx.check('R03.6', ok_lin and len(fresh) >= 1 and guarded,
-                  "the linear dimension is the caller's name, or find_unused_dimension(...) only when none was given", rv, item,
-                  construct=f"linear dimension = {norm_text(lin_expr)}")
+            ok_tail = isinstance(tail, ast.Tuple) and len(tail.elts) == 1
+            ok_dims = ok_head and ok_tail
+            lin_expr = tail.elts[0] if ok_tail else None
+        ctx.check('R03.1', ok_dims, "new dims = moved.dims[:-len(dimensions)] + (linear dimension,)", rv, item,
+                  construct=f"dims={norm_text(flow.resolve(dims))}")
+        # the linear dimension: the caller's name or a fresh one
+        if ok_dims and lin_expr is not None:
+            c = flow.canon(lin_expr)
+            lp = rv.params[2] if len(rv.params) > 2 else 'linear_dimension'
+            ok_lin = c == ('param', lp) or (c[0] == 'phi' and ('param', lp) in c)
+            fresh = [x for x in calls_in(rv) if callee(ctx, rv, x) == f"{UTILS}.find_unused_dimension"]
+            guarded = all(any(inb and isinstance(st.test, ast.Compare) and isinstance(st.test.ops[0], ast.Is)
+                              and is_none(st.test.comparators[0]) for st, inb in enclosing_ifs(rv, x)) for x in fresh)
+            ctx.check('R03.6', ok_lin and len(fresh) >= 1 and guarded,
+                      "the linear dimension is the caller's name, or find_unused_dimension(...) only when none was given", rv, item,
+                      construct=f"linear dimension = {norm_text(lin_expr)}")
 
     # ------------------------------------------------------------------ utils.find_unused_dimension
-    fu = ctx.func(f"{UTILS}.find_unused_dimension")
-    flow = ctx.flow(fu)
-    from .common import path_conditions
-    ok_all = True
-    detail = []
-    for r in fu.returns():
-        v = flow.resolve(r.value)
-        good = False
-        # the returned name is known, on every path to the return, not to be an existing dimension
-        for test, pol in path_conditions(fu, r):
-            if isinstance(test, ast.Compare) and len(test.ops) == 1 and flow.canon(test.left) == flow.canon(r.value):
-                if (isinstance(test.ops[0], ast.NotIn) and pol) or (isinstance(test.ops[0], ast.In) and not pol):
+    with ctx.section('utils.find_unused_dimension'):
+        fu = ctx.func(f"{UTILS}.find_unused_dimension")
+        flow = ctx.flow(fu)
+        from .common import path_conditions
+        ok_all = True
+        detail = []
+        for r in fu.returns():
+            v = flow.resolve(r.value)
+            good = False
+            # the returned name is known, on every path to the return, not to be an existing dimension
+            for test, pol in path_conditions(fu, r):
+                if isinstance(test, ast.Compare) and len(test.ops) == 1 and flow.canon(test.left) == flow.canon(r.value):
+                    if (isinstance(test.ops[0], ast.NotIn) and pol) or (isinstance(test.ops[0], ast.In) and not pol):
+                        good = True
+            # `return next(c for c in candidates if c not in existing)`
+            if isinstance(v, ast.Call) and dotted(v.func) == 'next' and v.args and isinstance(v.args[0], ast.GeneratorExp):
+                g = v.args[0]
+                gg = g.generators[0]
+                if len(gg.ifs) == 1 and isinstance(gg.ifs[0], ast.Compare) and isinstance(gg.ifs[0].ops[0], ast.NotIn) \
+                        and isinstance(g.elt, ast.Name) and isinstance(gg.ifs[0].left, ast.Name) and g.elt.id == gg.ifs[0].left.id:
                     good = True
-        # `return next(c for c in candidates if c not in existing)`
-        if isinstance(v, ast.Call) and dotted(v.func) == 'next' and v.args and isinstance(v.args[0], ast.GeneratorExp):
-            g = v.args[0]
-            gg = g.generators[0]
-            if len(gg.ifs) == 1 and isinstance(gg.ifs[0], ast.Compare) and isinstance(gg.ifs[0].ops[0], ast.NotIn) \
-                    and isinstance(g.elt, ast.Name) and isinstance(gg.ifs[0].left, ast.Name) and g.elt.id == gg.ifs[0].left.id:
-                good = True
-        ok_all = ok_all and good
-        detail.append(f"{norm_text(r)}: {'guarded' if good else 'UNGUARDED'}")
-    ctx.check('R03.6', ok_all and len(fu.returns()) >= 1, "every returned name is tested `not in` the existing dimensions", fu, fu.node,
-              construct='; '.join(detail))
+            ok_all = ok_all and good
+            detail.append(f"{norm_text(r)}: {'guarded' if good else 'UNGUARDED'}")
+        ctx.check('R03.6', ok_all and len(fu.returns()) >= 1, "every returned name is tested `not in` the existing dimensions", fu, fu.node,
+                  construct='; '.join(detail))
 
     # ------------------------------------------------------------------ utils.wind_dimension / splice_tuple
-    wd = ctx.func(f"{UTILS}.wind_dimension")
-    flow = ctx.flow(wd)
-    da = wd.params[0]
-    items = _returned_dataarray(ctx, wd)
-    ctx.need('R03.1', len(items) == 1, f"{wd.short}: expected one returned DataArray", wd)
-    r, item = items[0]
-    data = arg_or_kw(item, 0, 'data')
-    dims = arg_or_kw(item, 2, 'dims')
-    methods, b = _values_chain(flow, data)
-    ok = (len(methods) == 1 and methods[0].func.attr == 'reshape' and isinstance(b, ast.Attribute) and b.attr in ('values', 'data')
-          and flow.canon(b.value) == ('param', da))
-    ctx.check('R03.2', ok, "the output data is data_array.values.reshape(...) and nothing else", wd, item,
-              construct=f"data={norm_text(flow.resolve(data))}")
-    shape_expr = methods[0].args[0] if ok and methods[0].args else None
-    if ok:
-        order_kw = kwarg(methods[0], 'order')
-        ctx.check('R03.1', (order_kw is None or const_value(order_kw, None) == 'C') and len(methods[0].args) == 1, "reshape in C order", wd, methods[0],
-                  construct=f"reshape order={norm_text(order_kw) if order_kw is not None else 'default'}")
-    sd = as_splice(ctx, wd, dims) if dims is not None else None
-    ss = as_splice(ctx, wd, shape_expr) if shape_expr is not None else None
-    ctx.check('R03.1', sd is not None and ss is not None, "new dims and new shape are both splice(t, i, v) = t[:i] + v + t[i+1:]", wd, item,
-              construct=f"dims={norm_text(flow.resolve(dims)) if dims is not None else '?'}; shape={norm_text(flow.resolve(shape_expr)) if shape_expr is not None else '?'}")
-    if sd is not None and ss is not None:
-        ctx.check('R03.1', flow.canon(sd[0]) == ('attr', ('param', da), 'dims') and flow.canon(ss[0]) == ('attr', ('param', da), 'shape'),
-                  "the tuples spliced are data_array.dims and data_array.shape", wd, item, construct=f"spliced: {norm_text(sd[0])}, {norm_text(ss[0])}")
-        ctx.check('R03.1', flow.canon(sd[1]) == flow.canon(ss[1]), "dims and shape are spliced at the same index", wd, item,
-                  construct=f"splice index dims={norm_text(flow.resolve(sd[1]))} shape={norm_text(flow.resolve(ss[1]))}")
-        idx = flow.resolve(sd[1])
-        ok_idx = (isinstance(idx, ast.Call) and isinstance(idx.func, ast.Attribute) and idx.func.attr == 'index'
-                  and flow.canon(idx.func.value) == ('attr', ('param', da), 'dims') and len(idx.args) == 1
-                  and flow.canon(idx.args[0]) == ('param', 'linear_dimension'))
-        ctx.check('R03.1', ok_idx, "the splice index is the position of the linear dimension in data_array.dims", wd, item,
-                  construct=f"splice index = {norm_text(idx)}")
-        ctx.check('R03.1', flow.canon(sd[2]) == ('param', 'dimensions') and flow.canon(ss[2]) == ('param', 'sizes'),
-                  "dims receive `dimensions` and shape receives `sizes`, both as given", wd, item,
-                  construct=f"spliced values dims<-{norm_text(sd[2])} shape<-{norm_text(ss[2])}")
+    with ctx.section('utils.wind_dimension / splice_tuple'):
+        wd = ctx.func(f"{UTILS}.wind_dimension")
+        flow = ctx.flow(wd)
+        da = wd.params[0]
+        items = _returned_dataarray(ctx, wd)
+        ctx.need('R03.1', len(items) == 1, f"{wd.short}: expected one returned DataArray", wd)
+        r, item = items[0]
+        data = arg_or_kw(item, 0, 'data')
+        dims = arg_or_kw(item, 2, 'dims')
+        methods, b = _values_chain(flow, data)
+        ok = (len(methods) == 1 and methods[0].func.attr == 'reshape' and isinstance(b, ast.Attribute) and b.attr in ('values', 'data')
+              and flow.canon(b.value) == ('param', da))
+        ctx.check('R03.2', ok, "the output data is data_array.values.reshape(...) and nothing else", wd, item,
+                  construct=f"data={norm_text(flow.resolve(data))}")
+        shape_expr = methods[0].args[0] if ok and methods[0].args else None
+        if ok:
+            order_kw = kwarg(methods[0], 'order')
+            ctx.check('R03.1', (order_kw is None or const_value(order_kw, None) == 'C') and len(methods[0].args) == 1, "reshape in C order", wd, methods[0],
+                      construct=f"reshape order={norm_text(order_kw) if order_kw is not None else 'default'}")
+        sd = as_splice(ctx, wd, dims) if dims is not None else None
+        ss = as_splice(ctx, wd, shape_expr) if shape_expr is not None else None
+        ctx.check('R03.1', sd is not None and ss is not None, "new dims and new shape are both splice(t, i, v) = t[:i] + v + t[i+1:]", wd, item,
+                  construct=f"dims={norm_text(flow.resolve(dims)) if dims is not None else '?'}; shape={norm_text(flow.resolve(shape_expr)) if shape_expr is not None else '?'}")
+        if sd is not None and ss is not None:
+            ctx.check('R03.1', flow.canon(sd[0]) == ('attr', ('param', da), 'dims') and flow.canon(ss[0]) == ('attr', ('param', da), 'shape'),
+                      "the tuples spliced are data_array.dims and data_array.shape", wd, item, construct=f"spliced: {norm_text(sd[0])}, {norm_text(ss[0])}")
+            ctx.check('R03.1', flow.canon(sd[1]) == flow.canon(ss[1]), "dims and shape are spliced at the same index", wd, item,
+                      construct=f"splice index dims={norm_text(flow.resolve(sd[1]))} shape={norm_text(flow.resolve(ss[1]))}")
+            idx = flow.resolve(sd[1])
+            ok_idx = (isinstance(idx, ast.Call) and isinstance(idx.func, ast.Attribute) and idx.func.attr == 'index'
+                      and flow.canon(idx.func.value) == ('attr', ('param', da), 'dims') and len(idx.args) == 1
+                      and flow.canon(idx.args[0]) == ('param', 'linear_dimension'))
+            ctx.check('R03.1', ok_idx, "the splice index is the position of the linear dimension in data_array.dims", wd, item,
+                      construct=f"splice index = {norm_text(idx)}")
+            ctx.check('R03.1', flow.canon(sd[2]) == ('param', 'dimensions') and flow.canon(ss[2]) == ('param', 'sizes'),
+                      "dims receive `dimensions` and shape receives `sizes`, both as given", wd, item,
+                      construct=f"spliced values dims<-{norm_text(sd[2])} shape<-{norm_text(ss[2])}")
 
-    sp = ctx.func(f"{UTILS}.splice_tuple")
-    flow = ctx.flow(sp)
-    t_p, i_p, v_p = sp.params[:3]
-    rets = sp.returns()
-    ctx.need('R03.1', len(rets) == 1, f"expected one return", sp)
-    got = as_splice(ctx, sp, rets[0].value, allow_call=False)
-    ok_sp = got is not None and flow.canon(got[0]) == ('param', t_p) and flow.canon(got[1]) == ('param', i_p) and flow.canon(got[2]) == ('param', v_p)
-    ctx.check('R03.1', ok_sp, "splice_tuple(t, i, v) = t[:i] + v + t[i+1:]", sp, rets[0])
+        sp = ctx.func(f"{UTILS}.splice_tuple")
+        flow = ctx.flow(sp)
+        t_p, i_p, v_p = sp.params[:3]
+        rets = sp.returns()
+        ctx.need('R03.1', len(rets) == 1, f"expected one return", sp)
+        got = as_splice(ctx, sp, rets[0].value, allow_call=False)
+        ok_sp = got is not None and flow.canon(got[0]) == ('param', t_p) and flow.canon(got[1]) == ('param', i_p) and flow.canon(got[2]) == ('param', v_p)
+        ctx.check('R03.1', ok_sp, "splice_tuple(t, i, v) = t[:i] + v + t[i+1:]", sp, rets[0])
 
     # ------------------------------------------------------------------ DimensionConvention.ravel / wind / get_grid_kind
-    for fi in p.implementations(base, 'ravel'):
-        flow = ctx.flow(fi)
-        cfg = ctx.cfg(fi)
-        da = fi.params[1]
-        calls = [c for c in calls_in(fi) if callee(ctx, fi, c) == f"{UTILS}.ravel_dimensions"]
-        ctx.need('R03.4', len(calls) == 1, f"expected one utils.ravel_dimensions call", fi)
-        call = calls[0]
-        gk = [c for c in method_calls(fi, 'get_grid_kind') if flow.canon(c.func.value) == ('param', 'self')]
-        ok_gk = len(gk) == 1 and len(gk[0].args) == 1 and flow.canon(gk[0].args[0]) == ('param', da)
-        ctx.check('R03.4', ok_gk, "ravel determines the grid kind of the array itself (which refuses unknown grids)", fi,
-                  gk[0] if gk else fi.node, construct='get_grid_kind(data_array) call: ' + ('present' if ok_gk else 'absent'))
-        layers, core = peel_sequence(flow, call.args[1] if len(call.args) > 1 else kwarg(call, 'dimensions'))
-        ok_dims = (ok_gk and all(l[0] == 'conv' for l in layers) and isinstance(core, ast.Subscript)
-                   and flow.canon(core.value) == ('attr', ('param', 'self'), 'grid_dimensions')
-                   and flow.canon(core.slice) == flow.canon(gk[0]))
-        ctx.check('R03.1', ok_dims, "the flattened dimensions are self.grid_dimensions[<kind of this array>], in order", fi, call,
-                  construct=f"dimensions={norm_text(core)}")
-        ctx.check('R03.1', flow.canon(call.args[0]) == ('param', da), "the array flattened is the argument itself", fi, call,
-                  construct=f"array={norm_text(call.args[0])}")
-        ld = kwarg(call, 'linear_dimension') or (call.args[2] if len(call.args) > 2 else None)
-        ctx.check('R03.1', ld is not None and flow.canon(ld) == ('param', 'linear_dimension'),
-                  "the caller's linear dimension name is passed on", fi, call,
-                  construct=f"linear_dimension={norm_text(ld) if ld is not None else 'dropped'}")
-        for r in fi.returns():
-            ctx.check('R03.2', flow.resolve(r.value) is call, "ravel returns the flattened array unchanged", fi, r)
+    with ctx.section('DimensionConvention.ravel / wind / get_grid_kind'):
+        for fi in p.implementations(base, 'ravel'):
+            flow = ctx.flow(fi)
+            cfg = ctx.cfg(fi)
+            da = fi.params[1]
+            calls = [c for c in calls_in(fi) if callee(ctx, fi, c) == f"{UTILS}.ravel_dimensions"]
+            ctx.need('R03.4', len(calls) == 1, f"expected one utils.ravel_dimensions call", fi)
+            call = calls[0]
+            gk = [c for c in method_calls(fi, 'get_grid_kind') if flow.canon(c.func.value) == ('param', 'self')]
+            ok_gk = len(gk) == 1 and len(gk[0].args) == 1 and flow.canon(gk[0].args[0]) == ('param', da)
+            ctx.check('R03.4', ok_gk, "ravel determines the grid kind of the array itself (which refuses unknown grids)", fi,
+                      gk[0] if gk else fi.node, construct='get_grid_kind(data_array) call: ' + ('present' if ok_gk else 'absent'))
+            layers, core = peel_sequence(flow, call.args[1] if len(call.args) > 1 else kwarg(call, 'dimensions'))
+            ok_dims = (ok_gk and all(l[0] == 'conv' for l in layers) and isinstance(core, ast.Subscript)
+                       and flow.canon(core.value) == ('attr', ('param', 'self'), 'grid_dimensions')
+                       and flow.canon(core.slice) == flow.canon(gk[0]))
+            ctx.check('R03.1', ok_dims, "the flattened dimensions are self.grid_dimensions[<kind of this array>], in order", fi, call,
+                      construct=f"dimensions={norm_text(core)}")
+            ctx.check('R03.1', flow.canon(call.args[0]) == ('param', da), "the array flattened is the argument itself", fi, call,
+                      construct=f"array={norm_text(call.args[0])}")
+            ld = kwarg(call, 'linear_dimension') or (call.args[2] if len(call.args) > 2 else None)
+            ctx.check('R03.1', ld is not None and flow.canon(ld) == ('param', 'linear_dimension'),
+                      "the caller's linear dimension name is passed on", fi, call,
+                      construct=f"linear_dimension={norm_text(ld) if ld is not None else 'dropped'}")
+            for r in fi.returns():
+                ctx.check('R03.2', flow.resolve(r.value) is call, "ravel returns the flattened array unchanged", fi, r)
 
-    for fi in p.implementations(base, 'get_grid_kind'):
-        flow = ctx.flow(fi)
-        cfg = ctx.cfg(fi)
-        exits = cfg.exits()
-        falls = [n for k, n in exits if k == 'fall']
-        raises = [n for k, n in exits if k == 'raise']
-        rets = [n for k, n in exits if k == 'return']
-        ctx.check('R03.4', not falls and len(raises) >= 1, "the only exit without a matching grid is a raise", fi,
-                  falls[0] if falls else fi.node, construct=f"exits: {len(rets)} return, {len(raises)} raise, {len(falls)} fall-through")
-        from .common import path_conditions
-        ok_ret = len(rets) >= 1
-        ok_loop = False
-        loops = [n for n in walk_no_nested(fi.node) if isinstance(n, ast.For)]
-        for r in rets:
-            good = False
-            for t, pol in path_conditions(fi, r):
-                if pol and isinstance(t, ast.Call) and isinstance(t.func, ast.Attribute) and t.func.attr == 'issuperset' and len(t.args) == 1:
-                    recv = flow.resolve(t.func.value)
-                    if isinstance(recv, ast.Call) and dotted(recv.func) in ('set', 'frozenset') and recv.args \
-                            and flow.canon(recv.args[0]) == ('attr', ('param', fi.params[1]), 'dims'):
-                        good = True
-                        # kind returned and dimensions tested come from the same item of grid_dimensions
-                        for lp in loops:
-                            it = flow.resolve(lp.iter)
-                            if isinstance(it, ast.Call) and isinstance(it.func, ast.Attribute) and it.func.attr == 'items' \
-                                    and flow.canon(it.func.value) == ('attr', ('param', 'self'), 'grid_dimensions') \
-                                    and isinstance(lp.target, ast.Tuple) and len(lp.target.elts) == 2 \
-                                    and all(isinstance(e, ast.Name) for e in lp.target.elts) \
-                                    and isinstance(r.value, ast.Name) and r.value.id == lp.target.elts[0].id \
-                                    and isinstance(t.args[0], ast.Name) and t.args[0].id == lp.target.elts[1].id:
-                                ok_loop = True
-                if pol and isinstance(t, ast.Compare) and len(t.ops) == 1 and isinstance(t.ops[0], (ast.LtE, ast.GtE)):
-                    # set(dimensions) <= set(data_array.dims)  /  set(dims) >= set(dimensions)
-                    small, big = (t.left, t.comparators[0]) if isinstance(t.ops[0], ast.LtE) else (t.comparators[0], t.left)
-                    bg = flow.resolve(big)
-                    if isinstance(bg, ast.Call) and dotted(bg.func) in ('set', 'frozenset') and bg.args \
-                            and flow.canon(bg.args[0]) == ('attr', ('param', fi.params[1]), 'dims'):
-                        good = True
-                        for lp in loops:
-                            if isinstance(lp.target, ast.Tuple) and len(lp.target.elts) == 2 and isinstance(r.value, ast.Name) \
-                                    and isinstance(lp.target.elts[0], ast.Name) and r.value.id == lp.target.elts[0].id \
-                                    and any(isinstance(n, ast.Name) and isinstance(lp.target.elts[1], ast.Name) and n.id == lp.target.elts[1].id for n in ast.walk(small)):
-                                ok_loop = True
-            ok_ret = ok_ret and good
-        ctx.check('R03.4', ok_ret, "a kind is returned only when set(data_array.dims) is a superset of that kind's dimensions", fi,
-                  rets[0] if rets else fi.node, construct='guard of `return kind`')
-        ctx.check('R03.4', ok_loop, "kind and dimensions tested are the same item of grid_dimensions", fi, loops[0] if loops else fi.node,
-                  construct='for kind, dimensions in self.grid_dimensions.items(): test dimensions, return kind')
+        for fi in p.implementations(base, 'get_grid_kind'):
+            flow = ctx.flow(fi)
+            cfg = ctx.cfg(fi)
+            exits = cfg.exits()
+            falls = [n for k, n in exits if k == 'fall']
+            raises = [n for k, n in exits if k == 'raise']
+            rets = [n for k, n in exits if k == 'return']
+            ctx.check('R03.4', not falls and len(raises) >= 1, "the only exit without a matching grid is a raise", fi,
+                      falls[0] if falls else fi.node, construct=f"exits: {len(rets)} return, {len(raises)} raise, {len(falls)} fall-through")
+            from .common import path_conditions
+            ok_ret = len(rets) >= 1
+            ok_loop = False
+            loops = [n for n in walk_no_nested(fi.node) if isinstance(n, ast.For)]
+            for r in rets:
+                good = False
+                for t, pol in path_conditions(fi, r):
+                    if pol and isinstance(t, ast.Call) and isinstance(t.func, ast.Attribute) and t.func.attr == 'issuperset' and len(t.args) == 1:
+                        recv = flow.resolve(t.func.value)
+                        if isinstance(recv, ast.Call) and dotted(recv.func) in ('set', 'frozenset') and recv.args \
+                                and flow.canon(recv.args[0]) == ('attr', ('param', fi.params[1]), 'dims'):
+                            good = True
+                            # kind returned and dimensions tested come from the same item of grid_dimensions
+                            for lp in loops:
+                                it = flow.resolve(lp.iter)
+                                if isinstance(it, ast.Call) and isinstance(it.func, ast.Attribute) and it.func.attr == 'items' \
+                                        and flow.canon(it.func.value) == ('attr', ('param', 'self'), 'grid_dimensions') \
+                                        and isinstance(lp.target, ast.Tuple) and len(lp.target.elts) == 2 \
+                                        and all(isinstance(e, ast.Name) for e in lp.target.elts) \
+                                        and isinstance(r.value, ast.Name) and r.value.id == lp.target.elts[0].id \
+                                        and isinstance(t.args[0], ast.Name) and t.args[0].id == lp.target.elts[1].id:
+                                    ok_loop = True
+                    if pol and isinstance(t, ast.Compare) and len(t.ops) == 1 and isinstance(t.ops[0], (ast.LtE, ast.GtE)):
+                        # set(dimensions) <= set(data_array.dims)  /  set(dims) >= set(dimensions)
+                        small, big = (t.left, t.comparators[0]) if isinstance(t.ops[0], ast.LtE) else (t.comparators[0], t.left)
+                        bg = flow.resolve(big)
+                        if isinstance(bg, ast.Call) and dotted(bg.func) in ('set', 'frozenset') and bg.args \
+                                and flow.canon(bg.args[0]) == ('attr', ('param', fi.params[1]), 'dims'):
+                            good = True
+                            for lp in loops:
+                                if isinstance(lp.target, ast.Tuple) and len(lp.target.elts) == 2 and isinstance(r.value, ast.Name) \
+                                        and isinstance(lp.target.elts[0], ast.Name) and r.value.id == lp.target.elts[0].id \
+                                        and any(isinstance(n, ast.Name) and isinstance(lp.target.elts[1], ast.Name) and n.id == lp.target.elts[1].id for n in ast.walk(small)):
+                                    ok_loop = True
+                ok_ret = ok_ret and good
+            ctx.check('R03.4', ok_ret, "a kind is returned only when set(data_array.dims) is a superset of that kind's dimensions", fi,
+                      rets[0] if rets else fi.node, construct='guard of `return kind`')
+            ctx.check('R03.4', ok_loop, "kind and dimensions tested are the same item of grid_dimensions", fi, loops[0] if loops else fi.node,
+                      construct='for kind, dimensions in self.grid_dimensions.items(): test dimensions, return kind')
 
-    for fi in p.implementations(base, 'wind'):
-        flow = ctx.flow(fi)
-        da = fi.params[1]
-        calls = [c for c in calls_in(fi) if callee(ctx, fi, c) == f"{UTILS}.wind_dimension"]
-        ctx.need('R03.1', len(calls) == 1, f"expected one utils.wind_dimension call", fi)
-        call = calls[0]
-        dims = arg_or_kw(call, 1, 'dimensions')
-        sizes = arg_or_kw(call, 2, 'sizes')
-        ld = kwarg(call, 'linear_dimension')
-        ctx.need('R03.1', dims is not None and sizes is not None and ld is not None, f"wind_dimension arguments missing", fi)
-        d_layers, d_core = peel_sequence(flow, dims)
-        kind_c = None
-        ok_d = (all(l[0] == 'conv' for l in d_layers) and isinstance(d_core, ast.Subscript)
-                and flow.canon(d_core.value) == ('attr', ('param', 'self'), 'grid_dimensions'))
-        if ok_d:
-            kind_c = flow.canon(d_core.slice)
-            ok_d = kind_c == ('param', 'grid_kind') or (kind_c[0] == 'phi' and ('param', 'grid_kind') in kind_c)
-        ctx.check('R03.1', ok_d, "the wound dimensions are self.grid_dimensions[<requested kind>] in order", fi, call,
-                  construct=f"dimensions={norm_text(d_core)}")
-        s_layers, s_core = peel_sequence(flow, sizes)
-        comp = [l for l in s_layers if l[0] == 'comp']
-        ok_s = False
-        if len(comp) == 1 and all(l[0] in ('comp', 'conv') for l in s_layers) and isinstance(comp[0][2], ast.Name):
-            elt = comp[0][1]
-            ok_s = (isinstance(elt, ast.Subscript) and isinstance(elt.slice, ast.Name) and elt.slice.id == comp[0][2].id
-                    and dotted(elt.value) == 'self.dataset.sizes' and flow.canon(s_core) == flow.canon(d_core))
-        ctx.check('R03.1', ok_s, "sizes = [dataset.sizes[d] for d in <the same dimensions>] in order", fi, call,
-                  construct=f"sizes={norm_text(flow.resolve(sizes))}")
-        ctx.check('R03.1', flow.canon(call.args[0] if call.args else kwarg(call, 'data_array')) == ('param', da),
-                  "the array wound is the argument itself", fi, call, construct='array argument')
-        # R03.5
-        c = flow.canon(ld)
-        want_axis = ('sub', ('attr', ('param', da), 'dims'), ('param', 'axis'))
-        want_last = ('sub', ('attr', ('param', da), 'dims'), ('const', '-1'))
-        alts = set(c[1:]) if c[0] == 'phi' else {c}
-        ok5 = alts == {want_axis, want_last, ('param', 'linear_dimension')}
-        # guards
-        assigns = [n for n in walk_no_nested(fi.node) if isinstance(n, ast.Assign)
-                   and any(isinstance(t, ast.Name) and t.id == 'linear_dimension' for t in n.targets)]
-        from .common import known_none
-        guard_ok = len(assigns) == 2
-        for a in assigns:
-            cv = flow.canon(a.value)
-            axis_none = known_none(fi, a, lambda e: isinstance(e, ast.Name) and e.id == 'axis')
-            name_none = known_none(fi, a, lambda e: isinstance(e, ast.Name) and e.id == 'linear_dimension')
-            if cv == want_axis:
-                guard_ok = guard_ok and axis_none is False
-            elif cv == want_last:
-                guard_ok = guard_ok and axis_none is True and name_none is True
-            else:
-                guard_ok = False
-        ctx.check('R03.5', ok5 and guard_ok, "axis wins, then the given name, then the last dimension", fi, assigns[0] if assigns else call,
-                  construct=f"linear dimension choices: {sorted(norm_text(a) for a in assigns)}")
-        for r in fi.returns():
-            ctx.check('R03.2', flow.resolve(r.value) is call, "wind returns the wound array unchanged", fi, r)
+        for fi in p.implementations(base, 'wind'):
+            flow = ctx.flow(fi)
+            da = fi.params[1]
+            calls = [c for c in calls_in(fi) if callee(ctx, fi, c) == f"{UTILS}.wind_dimension"]
+            ctx.need('R03.1', len(calls) == 1, f"expected one utils.wind_dimension call", fi)
+            call = calls[0]
+            dims = arg_or_kw(call, 1, 'dimensions')
+            sizes = arg_or_kw(call, 2, 'sizes')
+            ld = kwarg(call, 'linear_dimension')
+            ctx.need('R03.1', dims is not None and sizes is not None and ld is not None, f"wind_dimension arguments missing", fi)
+            d_layers, d_core = peel_sequence(flow, dims)
+            kind_c = None
+            ok_d = (all(l[0] == 'conv' for l in d_layers) and isinstance(d_core, ast.Subscript)
+                    and flow.canon(d_core.value) == ('attr', ('param', 'self'), 'grid_dimensions'))
+            if ok_d:
+                kind_c = flow.canon(d_core.slice)
+                ok_d = kind_c == ('param', 'grid_kind') or (kind_c[0] == 'phi' and ('param', 'grid_kind') in kind_c)
+            ctx.check('R03.1', ok_d, "the wound dimensions are self.grid_dimensions[<requested kind>] in order", fi, call,
+                      construct=f"dimensions={norm_text(d_core)}")
+            s_layers, s_core = peel_sequence(flow, sizes)
+            comp = [l for l in s_layers if l[0] == 'comp']
+            ok_s = False
+            if len(comp) == 1 and all(l[0] in ('comp', 'conv') for l in s_layers) and isinstance(comp[0][2], ast.Name):
+                elt = comp[0][1]
+                ok_s = (isinstance(elt, ast.Subscript) and isinstance(elt.slice, ast.Name) and elt.slice.id == comp[0][2].id
+                        and dotted(elt.value) == 'self.dataset.sizes' and flow.canon(s_core) == flow.canon(d_core))
+            ctx.check('R03.1', ok_s, "sizes = [dataset.sizes[d] for d in <the same dimensions>] in order", fi, call,
+                      construct=f"sizes={norm_text(flow.resolve(sizes))}")
+            ctx.check('R03.1', flow.canon(call.args[0] if call.args else kwarg(call, 'data_array')) == ('param', da),
+                      "the array wound is the argument itself", fi, call, construct='array argument')
+            # R03.5
+            c = flow.canon(ld)
+            want_axis = ('sub', ('attr', ('param', da), 'dims'), ('param', 'axis'))
+            want_last = ('sub', ('attr', ('param', da), 'dims'), ('const', '-1'))
+            alts = set(c[1:]) if c[0] == 'phi' else {c}
+            ok5 = alts == {want_axis, want_last, ('param', 'linear_dimension')}
+            # guards
+            assigns = [n for n in walk_no_nested(fi.node) if isinstance(n, ast.Assign)
+                       and any(isinstance(t, ast.Name) and t.id == 'linear_dimension' for t in n.targets)]
+            from .common import known_none
+            guard_ok = len(assigns) == 2
+            for a in assigns:
+                cv = flow.canon(a.value)
+                axis_none = known_none(fi, a, lambda e: isinstance(e, ast.Name) and e.id == 'axis')
+                name_none = known_none(fi, a, lambda e: isinstance(e, ast.Name) and e.id == 'linear_dimension')
+                if cv == want_axis:
+                    guard_ok = guard_ok and axis_none is False
+                elif cv == want_last:
+                    guard_ok = guard_ok and axis_none is True and name_none is True
+                else:
+                    guard_ok = False
+            ctx.check('R03.5', ok5 and guard_ok, "axis wins, then the given name, then the last dimension", fi, assigns[0] if assigns else call,
+                      construct=f"linear dimension choices: {sorted(norm_text(a) for a in assigns)}")
+            for r in fi.returns():
+                ctx.check('R03.2', flow.resolve(r.value) is call, "wind returns the wound array unchanged", fi, r)
+
 
 
 # --------------------------------------------------------------------------- checker self-test
